@@ -90,6 +90,29 @@ func (s *State) VerifSnapshot() map[string]any {
 		out["haschildren"] = page.children != nil
 		out["hasfrontier"] = page.frontier != nil
 		out["basepoint"] = int(page.basepoint)
+		/* where the page sits in the browser history: steps back and steps forward that are
+		   possible from here, walked on a copy (pages are distinct pointers) */
+		back, forward := 0, 0
+		h := s.h
+		for {
+			before := h.Current()
+			h.Back()
+			if h.Current() == before {
+				break
+			}
+			back++
+		}
+		h = s.h
+		for {
+			before := h.Current()
+			h.Forward()
+			if h.Current() == before {
+				break
+			}
+			forward++
+		}
+		out["histback"] = back
+		out["histforward"] = forward
 	}
 	return out
 }
@@ -124,8 +147,11 @@ func (s *State) VerifSettledHookHeld() bool {
 	return !page.loadingUp && !page.loadingDown
 }
 
-/* A state showing one item, as after `open` has finished loading it: what the keys of a
-   whole-item op are typed into (number keys, Enter, o, p, b go through the real Update). */
+/*
+A state showing one item, as after `open` has finished loading it: what the keys of a
+
+	whole-item op are typed into (number keys, Enter, o, p, b go through the real Update).
+*/
 func VerifStateOnItem(item pub.Tangible, width, height int, output func(string)) *State {
 	s := NewState(width, height, output)
 	s.m.Lock()
@@ -149,4 +175,24 @@ func (s *State) VerifType(keys string) {
 		}
 		time.Sleep(200 * time.Microsecond)
 	}
+}
+
+/*
+Like VerifSettledHookHeld, but never waits for the mutex: a loader may hold it while it waits
+
+	for the network (a collection is harvested under the mutex).  locked = the mutex was free.
+*/
+func (s *State) VerifTrySettledHookHeld() (settled bool, loadingMode bool, locked bool) {
+	if !s.m.TryLock() {
+		return false, false, false
+	}
+	defer s.m.Unlock()
+	if s.mode == loading {
+		return false, true, true
+	}
+	if s.h.IsEmpty() {
+		return true, false, true
+	}
+	page := s.h.Current()
+	return !page.loadingUp && !page.loadingDown, false, true
 }
